@@ -376,6 +376,23 @@ func (c *checker) nestingStream(r *rng.R, n int) {
 	for i := 0; i < n; i++ {
 		k := 1 + r.Intn(70)
 		var doc string
+		if i%10 == 3 {
+			// well-formed and hundreds of levels deep: the parser returns the whole tree, and a walk
+			// has to visit all of it
+			k = 150 + r.Intn(450)
+			switch r.Intn(4) {
+			case 0:
+				doc = "const i32 x = " + strings.Repeat("[", k) + "1" + strings.Repeat("]", k)
+			case 1:
+				doc = "const i32 x = " + strings.Repeat("{1:", k) + "2" + strings.Repeat("}", k)
+			case 2:
+				doc = "typedef " + strings.Repeat("list<", k) + "i32" + strings.Repeat(">", k) + " T"
+			default:
+				doc = "struct S { 1: optional " + strings.Repeat("map<i8,", k/2) + strings.Repeat("set<", k/2) + "string" + strings.Repeat(">", k/2*2) + " f }"
+			}
+			c.checkAny([]byte(doc), "deep-nesting (well-formed, hundreds of levels)")
+			continue
+		}
 		switch r.Intn(5) {
 		case 0:
 			doc = "const i32 x = " + strings.Repeat("[", k)
